@@ -66,6 +66,9 @@ def run(ctx, replay=None):
                              **{"float": kernlib.FLOAT})
     else:
         kernlib.mc_replay(ctx, "KernelMC_c03.cfg", {"MaxPlan = 4": "MaxPlan = 5"}, label="KernelMC/c03 plan5")
+        # liveness under weak fairness: every run()/step() call returns or raises, every plan completes
+        ctx.mc("KernelMC", kernlib.cfg_text("KernelMC_c03live.cfg"), "kernel", label="KernelMC/c03 liveness (Returns, PlanCompletes)",
+               timeout=3000, coverage=False)
         kernlib.mc_replay(ctx, "KernelMC_c03.cfg", {"MaxOps = 2": "MaxOps = 3", "MaxEv = 8": "MaxEv = 8"}, label="KernelMC/c03 2x3")
         tr, _ = kernlib.gen_validate(ctx, 15000, KINDS, plan_kinds=PLAN, max_plan=7, label="generated-plans")
         kernlib.gen_validate(ctx, 15000, KINDS, plan_kinds=dict(PLAN, rununtil=6), max_plan=7, label="generated-plans-float-instants",
